@@ -42,6 +42,7 @@ def expr(n):
     if k == 'CharacterLiteral': return ('chr', chr(int(n['value'])))
     if k == 'DeclRefExpr': return ('var', n['referencedDecl'].get('name'))
     if k == 'BinaryOperator': return ('bin', n['opcode'], expr(n['inner'][0]), expr(n['inner'][1]))
+    if k == 'CompoundAssignOperator': return ('cassign', n['opcode'], expr(n['inner'][0]), expr(n['inner'][1]))
     if k == 'UnaryOperator': return ('un', n['opcode'], expr(n['inner'][0]))
     if k == 'CXXOperatorCallExpr':
         nm = callee_name(n)
